@@ -128,7 +128,7 @@ PENDING_REASON = "check not built yet in this round (planned in DESIGN.md §3.11
 def main():
     props = [json.loads(l) for l in open(os.path.join(HERE, "properties.jsonl"))]
     hooks = subprocess.run(["git", "-C", "/repo", "log", "--format=%H %s"], capture_output=True, text=True).stdout.splitlines()
-    hook_commits = [l.split()[0] for l in hooks if " verif hooks:" in l]
+    hook_commits = [l.split()[0] for l in hooks if " verif hooks:" in l or " verif hook:" in l]
     checks = []
     na = []
     for p in props:
